@@ -257,7 +257,12 @@ impl DMat4 {
     #[inline]
     #[must_use]
     pub fn to_scale_rotation_translation(&self) -> (DVec3, DQuat, DVec3) {
-        let det = self.determinant();
+        // Determinant of the upper left 3x3 block. For an affine matrix this is the determinant of the whole
+        // matrix, without the translation terms, which overflow for very large translations.
+        let det = self
+            .x_axis
+            .xyz()
+            .dot(self.y_axis.xyz().cross(self.z_axis.xyz()));
         glam_assert!(det != 0.0);
 
         let scale = DVec3::new(
